@@ -459,10 +459,7 @@ func (e *Env) eval(x Expr) *SV {
 				return &SV{S: c.floatLit("-"+v.Lit, v.T), T: v.T, Untyped: "float", Lit: "-" + v.Lit}
 			}
 			if isFloat(v.T) {
-				if c.fmode == "real" {
-					return &SV{S: "(- " + v.S + ")", T: v.T}
-				}
-				return &SV{S: "(fp.neg " + v.S + ")", T: v.T}
+				return &SV{S: c.fneg(v.S, v.T), T: v.T}
 			}
 			return &SV{S: "(- " + v.S + ")", T: v.T}
 		}
@@ -782,15 +779,15 @@ func (e *Env) binary(x *EBinary) *SV {
 	if fl && (!isFloat(a.T) || !isFloat(b.T)) {
 		specFail("mixed float/non-float operands in %s", x)
 	}
-	if fl && c.fmode == "fp" && intBits32(a.T) != intBits32(b.T) {
+	if fl && c.fmode != "real" && intBits32(a.T) != intBits32(b.T) {
 		specFail("mixed float32/float64 in %s (convert explicitly)", x)
 	}
 	switch x.Op {
 	case "==", "!=":
 		var s string
 		switch {
-		case fl && c.fmode == "fp":
-			s = "(fp.eq " + a.S + " " + b.S + ")"
+		case fl:
+			s = c.fcmp("==", a.S, b.S, a.T)
 		case a.Untyped == "nil" || b.Untyped == "nil":
 			other, _ := a, b
 			if a.Untyped == "nil" {
@@ -812,9 +809,8 @@ func (e *Env) binary(x *EBinary) *SV {
 		}
 		return e.boolSV(s)
 	case "<", "<=", ">", ">=":
-		if fl && c.fmode == "fp" {
-			op := map[string]string{"<": "fp.lt", "<=": "fp.leq", ">": "fp.gt", ">=": "fp.geq"}[x.Op]
-			return e.boolSV("(" + op + " " + a.S + " " + b.S + ")")
+		if fl {
+			return e.boolSV(c.fcmp(x.Op, a.S, b.S, a.T))
 		}
 		if isString(a.T) {
 			c.uses["str"] = true
@@ -840,17 +836,10 @@ func (e *Env) binary(x *EBinary) *SV {
 			rt = b.T
 		}
 		if fl {
-			if c.fmode == "fp" {
-				op := map[string]string{"+": "fp.add RNE", "-": "fp.sub RNE", "*": "fp.mul RNE", "/": "fp.div RNE"}[x.Op]
-				if op == "" {
-					specFail("bad float op %s", x.Op)
-				}
-				return &SV{S: "(" + op + " " + a.S + " " + b.S + ")", T: rt}
+			if x.Op == "%" || x.Op == "++" {
+				specFail("bad float op %s", x.Op)
 			}
-			if x.Op == "*" || x.Op == "/" {
-				c.uses["nia"] = true
-			}
-			return &SV{S: "(" + x.Op + " " + a.S + " " + b.S + ")", T: rt}
+			return &SV{S: c.fbin(x.Op, a.S, b.S, rt), T: rt}
 		}
 		// integer arithmetic in specs is mathematical
 		res := &SV{T: rt}
@@ -900,9 +889,6 @@ func (e *Env) call(x *ECall) *SV {
 		ne := *e
 		ne.st = e.old
 		ne.inOld = true
-		if e.oldVars != nil {
-			ne.vars = e.oldVars
-		}
 		return ne.eval(x.Args[0])
 	case "len":
 		v := arg(0)
@@ -930,7 +916,7 @@ func (e *Env) call(x *ECall) *SV {
 		}
 		_, _, hk, hs, _, _ := c.mapHeaps(mt)
 		k := e.coerce(arg(1), mt.Key())
-		return e.boolSV("(select (select " + c.heapGet(e.st, hk, hs) + " " + m.S + ") " + k.S + ")")
+		return e.boolSV("(and (not (= " + m.S + " 0)) (select (select " + c.heapGet(e.st, hk, hs) + " " + m.S + ") " + k.S + "))")
 	case "ite":
 		a, b := e.unify(arg(1), arg(2))
 		return &SV{S: "(ite " + arg(0).S + " " + a.S + " " + b.S + ")", T: a.T}
@@ -939,12 +925,15 @@ func (e *Env) call(x *ECall) *SV {
 		if isFloat(v.T) && c.fmode == "fp" {
 			return &SV{S: "(fp.abs " + v.S + ")", T: v.T}
 		}
+		if isFloat(v.T) && c.fmode == "uf" {
+			return c.ufCall("abs", []*SV{v}, v.T)
+		}
 		return &SV{S: "(ite (>= " + v.S + " " + e.coerce(&SV{S: "0", Untyped: "int", Lit: "0", T: types.Typ[types.Int]}, v.T).S + ") " + v.S + " (- " + v.S + "))", T: v.T}
 	case "min", "max":
 		a, b := e.unify(arg(0), arg(1))
 		var lt string
-		if isFloat(a.T) && c.fmode == "fp" {
-			lt = "(fp.lt " + a.S + " " + b.S + ")"
+		if isFloat(a.T) {
+			lt = c.fcmp("<", a.S, b.S, a.T)
 		} else {
 			lt = "(< " + a.S + " " + b.S + ")"
 		}
@@ -954,22 +943,13 @@ func (e *Env) call(x *ECall) *SV {
 		return &SV{S: "(ite " + lt + " " + b.S + " " + a.S + ")", T: a.T}
 	case "isNaN":
 		v := arg(0)
-		if c.fmode == "fp" {
-			return e.boolSV("(fp.isNaN " + v.S + ")")
-		}
-		return e.boolSV("false")
+		return e.boolSV(c.fIsNaN(v.S, v.T))
 	case "isInf":
 		v := arg(0)
-		if c.fmode == "fp" {
-			return e.boolSV("(fp.isInfinite " + v.S + ")")
-		}
-		return e.boolSV("false")
+		return e.boolSV(c.fIsInf(v.S, v.T))
 	case "finite":
 		v := arg(0)
-		if c.fmode == "fp" {
-			return e.boolSV("(not (or (fp.isNaN " + v.S + ") (fp.isInfinite " + v.S + ")))")
-		}
-		return e.boolSV("true")
+		return e.boolSV(not(or(c.fIsNaN(v.S, v.T), c.fIsInf(v.S, v.T))))
 	case "same":
 		a, b := e.unify(arg(0), arg(1))
 		return e.boolSV("(= " + a.S + " " + b.S + ")")
